@@ -543,7 +543,7 @@ _BINARY = ["Add", "Mul", "Sub"]
 class ModelGen:
     """Structured generator of mostly checker-valid models (see module docstring)."""
 
-    def __init__(self, seed, *, messy_names=False, unsorted=False, sub_unsorted=False):
+    def __init__(self, seed, *, messy_names=False, unsorted=False, sub_unsorted=False, shared_fn_names=False):
         import onnx_ir as ir
 
         self.ir = ir
@@ -552,6 +552,8 @@ class ModelGen:
         self.messy = messy_names
         self.unsorted = unsorted
         self.sub_unsorted = sub_unsorted  # only nested subgraphs are out of order
+        self.shared_fn_names = shared_fn_names
+        self.fn_pool = []
         self.F = ir.DataType.FLOAT
         self.functions = []
 
@@ -733,7 +735,7 @@ class ModelGen:
                     subs.append(self.graph(avail, cond, depth + 1, False))
                 node = ir.node("If", [cond], {"then_branch": subs[0], "else_branch": subs[1]}, name=self.name("n"))
             elif self.functions:
-                f = r.choice(self.functions)
+                f = r.choice(self.functions) if not self.shared_fn_names else self.functions[-1]
                 ins = [r.choice(avail) for _ in f.inputs]
                 node = ir.node(f.name, ins, domain=f.domain, name=self.name("n"))
                 history.append((f.name, ins)) if False else None
@@ -781,12 +783,20 @@ class ModelGen:
         ir, r = self.ir, self.rng
         ins = [self.val(self.name("fi")) for _ in range(r.randint(1, 2))]
         g = self.graph([], None, 1, False, fn_inputs=ins)
-        f = ir.Function("custom", self.name("F"), graph=g, attributes=[])
+        fname = self.fn_pool.pop() if self.fn_pool else self.name("F")
+        f = ir.Function("custom", fname, graph=g, attributes=[])
         return f
 
     def model(self):
         ir, r = self.ir, self.rng
-        for _ in range(r.choice([0, 0, 1, 2])):
+        nfun = r.choice([0, 0, 1, 2])
+        if self.shared_fn_names:
+            # identifiers shared between models (a long-lived pass object sees the same names again, with a
+            # different callee structure); the pool order is random, so "Fa" may call "Fc" here and not there
+            nfun = r.choice([1, 1, 2, 3])
+            self.fn_pool = ["Fa", "Fb", "Fc"]
+            r.shuffle(self.fn_pool)
+        for _ in range(nfun):
             self.functions.append(self.function())
         cond = ir.Value(name="cond", shape=ir.Shape([]), type=ir.TensorType(ir.DataType.BOOL))
         g = self.graph([], cond, 0, True)
@@ -802,7 +812,11 @@ FLAVOURS = ["plain", "plain", "unsorted", "messy", "subunsorted", "plain"]
 
 def build_model(seed, flavour="plain"):
     return ModelGen(
-        seed, messy_names=flavour == "messy", unsorted=flavour == "unsorted", sub_unsorted=flavour == "subunsorted"
+        seed,
+        messy_names=flavour == "messy",
+        unsorted=flavour == "unsorted",
+        sub_unsorted=flavour == "subunsorted",
+        shared_fn_names=flavour == "reuse",
     ).model()
 
 
@@ -835,6 +849,17 @@ def pass_table():
         ("functionalize(RemoveUnusedNodes)", lambda: P.functionalize(cp.RemoveUnusedNodesPass())),
         ("functionalize(IdentityElimination)", lambda: P.functionalize(cp.IdentityEliminationPass())),
     ]
+
+
+def dangling_calls(model, known_functions) -> list[str]:
+    """Nodes anywhere in the model that call a function which existed before the pass and is gone now."""
+    res = []
+    for gl, _e, _p in all_graph_likes(model):
+        for n in gl:
+            ident = n.op_identifier()
+            if ident in known_functions and ident not in model.functions:
+                res.append(f"node {n.name} calls {ident[0]}::{ident[1]}, which the pass removed")
+    return res[:3]
 
 
 def ir_fingerprint(model):
@@ -1167,6 +1192,7 @@ def apply_pass_case(part: Part, reqs: list, seed: int, flavour: str, pname: str,
         reg = {}
         extra = ("initinputs", reg, initinputs_state(model, reg))
     rounds, cur, modified_any = 0, model, False
+    known_functions = set(model.functions)
     fp_before = ir_fingerprint(model) if p.in_place else None
     sig = f"pass/{pname}"
     first = None
@@ -1220,6 +1246,9 @@ def apply_pass_case(part: Part, reqs: list, seed: int, flavour: str, pname: str,
         errs = check_links(r.model)
         if errs:
             part.fail(sig + "/links", errs[0], case)
+        dang = dangling_calls(r.model, known_functions)
+        if dang:
+            part.fail(sig + "/dangling-function-call", dang[0], case)
         if sorted_before and not is_sorted(r.model):
             part.fail(sig + "/order", "a topologically ordered model is no longer ordered", case)
         named_after, unique_after = names_view(r.model)
@@ -1489,6 +1518,172 @@ def compose_case(part: Part, reqs: list, seed: int) -> None:
     part.case(["compose", seed], True, case if seed % 50 == 0 else None, compose_outcome=out[0], compose_leaves=min(len(names), 6))
 
 
+# =========================================================================== E. long-lived pass objects
+
+
+def reuse_case(part: Part, seed: int) -> None:
+    """ONE instance of every built-in pass (and one PassManager / Sequential object) is applied to a
+    sequence of models that share function identifiers.  Whatever the object was applied to before, each
+    application must behave like a fresh instance on the same model, and the usual contract must hold."""
+    import onnx_ir as ir
+
+    P = ir.passes
+    rng = random.Random(f"reuse:{seed}")
+    table = [t for t in pass_table() if t[0] != "Checker"]
+    byname = dict(table)
+    inplace = [t[0] for t in table if not t[0].startswith("functionalize")]
+
+    def mk_pipeline(kind):
+        names = [rng.choice(inplace) for _ in range(rng.randint(1, 3))]
+        if rng.random() < 0.6 and "RemoveUnusedFunctions" not in names:
+            names.append("RemoveUnusedFunctions")
+        st = (rng.choice([1, 2, 3]), rng.random() < 0.7)
+        return (kind, names, st)
+
+    def build(spec):
+        if isinstance(spec, str):
+            return byname[spec]()
+        kind, names, (steps, es) = spec
+        ps = [byname[n]() for n in names]
+        return P.Sequential(*ps) if kind == "seq" else P.PassManager(ps, steps=steps, early_stop=es)
+
+    specs = [t[0] for t in table] + [mk_pipeline("mgr"), mk_pipeline("mgr"), mk_pipeline("seq")]
+    model_seeds = [rng.randrange(10**9) for _ in range(rng.choice([3, 4]))]
+    for spec in specs:
+        label = spec if isinstance(spec, str) else f"{spec[0]}[{'+'.join(spec[1])}]"
+        sig = "reuse/" + (spec if isinstance(spec, str) else spec[0])
+        shared = build(spec)
+        for k, ms in enumerate(model_seeds):
+            case = {"reuse_seed": seed, "spec": label, "application": k, "model_seeds": model_seeds}
+            model = build_model(ms, "reuse")
+            ref_model = build_model(ms, "reuse")
+            try:
+                before = ser_bytes(model)
+            except Exception:  # noqa: BLE001
+                break
+            known = set(model.functions)
+            try:
+                ref = build(spec)(ref_model)
+                ref_out = ("ok", bool(ref.modified), ser_bytes(ref.model))
+            except Exception as e:  # noqa: BLE001
+                ref_out = ("raised", type(e).__name__, None)
+            try:
+                r = shared(model)
+                out = ("ok", bool(r.modified), ser_bytes(r.model))
+            except Exception as e:  # noqa: BLE001
+                out = ("raised", type(e).__name__, None)
+                r = None
+            if out != ref_out:
+                part.fail(
+                    sig + "/depends-on-earlier-applications",
+                    f"application {k} of one {label} object: {out[:2]} but a fresh instance on the same model gives {ref_out[:2]}"
+                    + ("" if out[:2] != ref_out[:2] else " (resulting models differ)"),
+                    case,
+                )
+            if r is not None:
+                if shared.in_place and r.model is not model:
+                    part.fail(sig + "/identity", "in-place pass object returned another model", case)
+                if not r.modified and out[2] != before:
+                    part.fail(sig + "/modified-false-but-changed", "modified=False but the serialized model differs", case)
+                dang = dangling_calls(r.model, known)
+                if dang:
+                    part.fail(sig + "/dangling-function-call", dang[0], case)
+                errs = check_links(r.model)
+                if errs:
+                    part.fail(sig + "/links", errs[0], case)
+                # fixpoint with the same object (single passes; a manager without early stop need not converge in one call)
+                if isinstance(spec, str):
+                    cur, bytes_cur, flag = r.model, out[2], r.modified
+                    for _ in range(model_size(r.model) + 2):
+                        if not flag:
+                            break
+                        try:
+                            r2 = shared(cur)
+                        except Exception:  # noqa: BLE001
+                            break
+                        cur, bytes_cur, flag = r2.model, ser_bytes(r2.model), r2.modified
+                    else:
+                        part.fail(sig + "/rounds", "the reused object never reports modified=False", case)
+                    if not flag:
+                        try:
+                            r3 = shared(cur)
+                            if r3.modified or ser_bytes(r3.model) != bytes_cur:
+                                part.fail(sig + "/fixpoint", "after modified=False the next application changes or reports True", case)
+                            dang = dangling_calls(r3.model, known)
+                            if dang:
+                                part.fail(sig + "/dangling-function-call", dang[0], case)
+                        except Exception:  # noqa: BLE001
+                            pass
+            part.case(["reuse", seed, label, k], k > 0, case if (seed + k) % 211 == 0 else None, reuse_kind=spec if isinstance(spec, str) else spec[0], reuse_outcome=out[0])
+
+
+# =========================================================================== F. Sequential with a functional head
+
+
+def funcseq_case(part: Part, seed: int) -> None:
+    """Sequential / PassManager whose first member is functional (a functionalized pass that often has nothing
+    to do) followed by in-place members that do modify.  Specification = applying the members by hand, one
+    after the other: the composition must not raise when that does not, must give the same model and flag,
+    must return a new object and must leave the caller's model untouched."""
+    import onnx_ir as ir
+
+    P = ir.passes
+    rng = random.Random(f"funcseq:{seed}")
+    byname = dict(pass_table())
+    heads = ["TopologicalSort", "RemoveUnusedOpsets", "RemoveUnusedFunctions", "IdentityElimination", "OutputFix", "ClearMetadataAndDocString"]
+    tails = ["RemoveUnusedNodes", "ClearMetadataAndDocString", "IdentityElimination", "DeduplicateInitializers",
+             "LiftConstantsToInitializers(all,0)", "CommonSubexpressionElimination", "RemoveUnusedOpsets", "AddInitializersToInputs"]
+    head = rng.choice(heads)
+    tail = [rng.choice(tails) for _ in range(rng.randint(1, 2))]
+    kind = rng.choice(["seq", "seq", "mgr"])
+    ms = rng.randrange(10**9)
+    case = {"funcseq_seed": seed, "head": f"functionalize({head})", "tail": tail, "kind": kind}
+
+    def members():
+        return [P.functionalize(byname[head]())] + [byname[t]() for t in tail]
+
+    # specification: by hand
+    spec_model = build_model(ms, "plain")
+    try:
+        cur, flag = spec_model, False
+        for m in members():
+            res = m(cur)
+            cur, flag = res.model, flag or bool(res.modified)
+        spec = ("ok", flag, ser_bytes(cur))
+    except Exception as e:  # noqa: BLE001
+        spec = ("raised", type(e).__name__, None)
+    model = build_model(ms, "plain")
+    try:
+        before = ser_bytes(model)
+    except Exception:  # noqa: BLE001
+        return
+    fp_before = ir_fingerprint(model)
+    comp = P.Sequential(*members()) if kind == "seq" else P.PassManager(members(), steps=1)
+    input_changed = False
+    try:
+        r = comp(model)
+        # look at the caller's model BEFORE serializing the result: the clone made by functionalize shares
+        # tensor objects with the input, and serializing an initializer renames its tensor (not a C14 matter)
+        input_changed = ser_bytes(model) != before or ir_fingerprint(model) != fp_before
+        out = ("ok", bool(r.modified), ser_bytes(r.model))
+    except Exception as e:  # noqa: BLE001
+        out = ("raised", type(e).__name__, None)
+        r = None
+        input_changed = ser_bytes(model) != before or ir_fingerprint(model) != fp_before
+    sig = "funcseq"
+    if spec[0] == "ok" and out[0] == "raised":
+        part.fail(sig + "/raised", f"the composition raises {out[1]} although its members applied one after the other do not", case)
+    elif spec[0] == "ok" and out != spec:
+        part.fail(sig + "/result-differs", f"composition gives {out[:2]}, members applied by hand give {spec[:2]}" + (" (models differ)" if out[:2] == spec[:2] else ""), case)
+    if comp.in_place:
+        part.fail(sig + "/declaration", "a composition with a functional member declares itself in-place", case)
+    if r is not None and r.model is model:
+        part.fail(sig + "/identity", "a not-in-place composition returned its input", case)
+    if spec[0] == "ok" and input_changed:
+        part.fail(sig + "/input-changed", "the head is functional but the caller's model was changed by the composition", case)
+    part.case(["funcseq", seed], True, case if seed % 101 == 0 else None, funcseq_head=head, funcseq_out=out[0] + ":" + str(out[1]))
+
+
 # =========================================================================== D. ONNX boundary faults on generated models
 
 
@@ -1597,6 +1792,10 @@ def _worker(job):
                 compose_case(part, reqs, it)
             elif kind == "dce":
                 dce_case(part, reqs, it)
+            elif kind == "reuse":
+                reuse_case(part, it)
+            elif kind == "funcseq":
+                funcseq_case(part, it)
             elif kind == "boundary":
                 boundary_case(part, *it)
         except Exception as e:  # noqa: BLE001 - harness bug: surface it, never hide
@@ -1710,6 +1909,8 @@ def run(ctx: Ctx) -> None:
     rng.shuffle(items)
     jobs += [("pass", c) for c in _chunks(items, 64)]
     jobs += [("compose", c) for c in _chunks([rng.randrange(10**9) for _ in range(ctx.pick(800, 8000))], 8)]
+    jobs += [("reuse", c) for c in _chunks([rng.randrange(10**9) for _ in range(ctx.pick(48, 480))], 2)]
+    jobs += [("funcseq", c) for c in _chunks([rng.randrange(10**9) for _ in range(ctx.pick(600, 6000))], 16)]
     jobs += [("dce", c) for c in _chunks([rng.randrange(10**9) for _ in range(ctx.pick(1500, 15000))], 8)]
     # D: every pass x {ok, lazy tensor raises, serialization raises, call raises}
     bitems = []
@@ -1778,6 +1979,10 @@ def replay(ctx: Ctx, obj: dict, _count: bool = True) -> None:
         apply_pass_case(part, reqs, case["seed"], case.get("flavour", "plain"), case["pass"], table[case["pass"]])
     elif isinstance(case, dict) and "compose" in case:
         compose_case(part, reqs, case["seed"])
+    elif isinstance(case, dict) and "reuse_seed" in case:
+        reuse_case(part, case["reuse_seed"])
+    elif isinstance(case, dict) and "funcseq_seed" in case:
+        funcseq_case(part, case["funcseq_seed"])
     elif isinstance(case, dict) and "inits" in case:
         req, obs, fails = run_capi_real(case)
         for sig, what in fails:
